@@ -137,6 +137,9 @@ func (apr *ActivePushReplicator) registerCheckpointerCallbacks(c *activeReplicat
 	blipSyncContextCollection.sgr2PushAlreadyKnownSeqsCallback = c.Checkpointer.AddAlreadyKnownSeq
 	blipSyncContextCollection.sgr2PushAddExpectedSeqsCallback = c.Checkpointer.AddExpectedSeqs
 	blipSyncContextCollection.sgr2PushProcessedSeqCallback = c.Checkpointer.AddProcessedSeq
+	if base.VerifOn {
+		base.VerifEmit(verifObj(apr.blipSyncContext), "PushBind", "coll", verifCollIdx(c.collectionIdx), "ckpt", verifObj(c.Checkpointer))
+	}
 
 	return nil
 }
